@@ -87,9 +87,12 @@ func (p *storeProp) Gen(r *Rand, tier string, idx int) any {
 	default:
 		sp.Kind = "oci"
 	}
-	o := GraphOpts{MaxNodes: 10, Referrers: true, OneDigest: true, NoTwins: true, NoForeign: false}
+	o := GraphOpts{MaxNodes: 10, Referrers: true, OneDigest: true, NoTwins: true, NoForeign: false, SHA512: true}
 	if p.id == "C09" || p.id == "C07" {
 		o.MaxNodes = 12
+	}
+	if tier == "thorough" && r.Chance(0.3) {
+		o.MaxNodes += 6
 	}
 	if sp.Kind == "file" {
 		o.Titles = true
@@ -120,6 +123,9 @@ func (p *storeProp) Gen(r *Rand, tier string, idx int) any {
 		}
 	}
 	nops := r.Range(5, 40)
+	if tier == "thorough" && r.Chance(0.3) {
+		nops = r.Range(30, 70)
+	}
 	randRef := func() string {
 		if p.id == "C06" && r.Chance(0.05) {
 			return ""
@@ -652,10 +658,15 @@ func (sr *storeRun) blobListingDiff() string {
 		want[sr.g.Nodes[i].Desc.Digest.Encoded()] = true
 	}
 	// strays survive Delete, not GC; judged only right after GC
-	entries, _ := os.ReadDir(filepath.Join(sr.dir, "blobs", "sha256"))
 	have := map[string]bool{}
-	for _, e := range entries {
-		have[e.Name()] = true
+	for _, alg := range []string{"sha256", "sha512"} {
+		entries, _ := os.ReadDir(filepath.Join(sr.dir, "blobs", alg))
+		for _, e := range entries {
+			have[e.Name()] = true
+			if alg == "sha512" {
+				sr.info.Probes["sha512_blob_on_disk"]++
+			}
+		}
 	}
 	strays := map[string]bool{}
 	for i := 0; i < sr.sp.Stray; i++ {
@@ -956,6 +967,14 @@ func (sr *storeRun) reopen(how string) *Verdict {
 		if nt >= 1 && nb >= 2 {
 			sr.info.Nontrivial = true
 			sr.info.Probes["reopen_with_tags_"+how]++
+		}
+		if how == "tar" {
+			for i, e := range snap.Exists {
+				if e && g.Nodes[i].Spec.Alg == "sha512" {
+					sr.info.Probes["reopen_from_tar_with_sha512_blob"]++
+					break
+				}
+			}
 		}
 		if how == "new" {
 			sr.store = re
